@@ -34,10 +34,10 @@ type c18Resp struct {
 	sep         int // 0 ": ", 1 ":", 2 ":   ", 3 ": value  "
 	extra       int
 	extraVals   []string // values of the extra headers, fixed by the script so that every build of the head has the same length
-	piggy       []wsMsg // frames in the same byte string as the response
-	later       []wsMsg // frames sent a little later
-	cuts        []int   // segmentation of response+piggy
-	closeAfter  int     // close the connection after this many bytes (-1: never)
+	piggy       []wsMsg  // frames in the same byte string as the response
+	later       []wsMsg  // frames sent a little later
+	cuts        []int    // segmentation of response+piggy
+	closeAfter  int      // close the connection after this many bytes (-1: never)
 	expectOK    bool
 	description string
 }
